@@ -17,7 +17,8 @@ MANIFEST = dict(
          "the retry-counter reset). PROVED PER CALL (a decision on an arbitrary state, not a history): host "
          "choice of each balance mode (only hosts with an active proc, none only if there is none; lc minimum, "
          "rr next-in-cycle, hash maximum), a connect failure disables for disable-time, the trigger re-enables "
-         "after it, the retry decision of each failure path, giving up sets >= 500 (or create_env's 400), a "
+         "after it, the retry decision of each failure path, giving up sets >= 500 (or create_env's 400), 502 "
+         "instead of a partial response while no response head has been sent, a "
          "passed connect/read/write deadline makes the visit release socket and proc. PROVED ONLY UNDER A "
          "HYPOTHESIS: the per-host / per-proc figures mod_status reports equal the in-flight counts if no two "
          "hosts share a label (witness theorem: false for unlabeled hosts). TESTED ONLY (independent oracle on "
@@ -238,6 +239,7 @@ def oracle_full(line, out):
     prev_slots = [None] * nslots
     av = Avail(spec)
     soft, late = [], None
+    seen_D = False
     for i, op in enumerate(ops):
         st = steps[i]
         k = st.find("#")
@@ -389,10 +391,20 @@ def oracle_full(line, out):
                         if h != want:
                             return "hash balance chose host %d, expected %d%s" % (h, want, where)
         # --- every request that ends without a response gets an error status
+        rds = script_of(fld, "r")
+        if "D" in rds:
+            seen_D = True
         for r in res:
             if "=fin" in r:
                 body = r.split("=fin")[1]
                 code = int(body.rstrip("sth"))
+                sl = int(r.split("=")[0])
+                ps = prev_slots[sl] if sl < len(prev_slots) else None
+                if "t" in body and not seen_D:
+                    # a cut-off response may only go out if the head was already on its way
+                    return "response aborted half-way (status %d) although no response head had been sent: 502 expected%s" % (code, where)
+                if "s" in body and "D" not in rds and ps not in (None, "!") and len(ps) > 12 and ps[12] == 2:
+                    return "backend closed short of the announced body before any head was sent, response passed on as complete (status %d): 502 expected%s" % (code, where)
                 if "s" in body:
                     # 't' = response was already under way when the backend failed: the
                     # connection is aborted, the status line is history
@@ -468,7 +480,7 @@ def rnd_script(rng, faulty=True):
         w = "rrrrkkppan" if faulty else "kkkpp"
         g.append("c=" + "".join(rng.choice(w) for _ in range(n)))
     if rng.random() < 0.5:
-        g.append("r=" + "".join(rng.choice("gddfxx" if faulty else "gddf") for _ in range(rng.randint(1, 4))))
+        g.append("r=" + "".join(rng.choice("gddfxxDl" if faulty else "gddfD") for _ in range(rng.randint(1, 4))))
     if faulty and rng.random() < 0.3:
         g.append("w=" + "".join(rng.choice("aaonne") for _ in range(rng.randint(1, 3))))
     if faulty and rng.random() < 0.25:
@@ -548,7 +560,7 @@ def gen_scenarios(rng, n, anon=False):
         nh = hosts.count("/") + 1
         ops = []
         for _ in range(rng.randint(2, 7)):
-            sc = rng.randrange(11)
+            sc = rng.randrange(12)
             s = rng.randrange(nslots)
             key = rng.randrange(12)
             if sc == 0:    # refused by some backends, then accepted
@@ -580,6 +592,10 @@ def gen_scenarios(rng, n, anon=False):
                 n = rng.randint(3, 12)
                 ops.append("a%d.%d.c=%s,w=%s,r=%s" % (s, key, "k" * n, rng.choice("en") * n, "x" * n))
                 ops.append("e%d.1.r=%s,c=%s,w=%s" % (s, "x" * n, "k" * n, "n" * n))
+            elif sc == 10: # response begun, then the backend fails or closes short of what it announced
+                ops.append("a%d.%d.c=k" % (s, key))
+                ops.append("e%d.1.r=%s" % (s, rng.choice(["d", "D", "l", "dl", "Dl", "lD", "dg", "lg"])))
+                ops.append("e%d.%d.r=%s" % (s, rng.choice([1, 1, 4, 16]), rng.choice(["x", "f", "dx", "Df", "gx", "lf"])))
             else:          # come back: wait out the disable time, then ask again
                 ops += ["t%d" % rng.choice([1, 2, 3, 6])] * rng.randint(1, 3)
                 ops.append("a%d.%d.c=k" % (s, key))
@@ -589,6 +605,7 @@ def gen_scenarios(rng, n, anon=False):
 
 
 ALPHA = ["a0.1.c=k", "a0.2.c=p", "a1.3.c=r", "a1.4.c=rrrrrrr", "a0.5.c=k,w=n", "e0.1.r=x", "e0.1.r=df",
+         "e0.1.r=dx", "e0.1.r=Dx", "e0.1.r=lf",
          "e1.2.s=r", "e0.2", "e0.4", "e1.16", "t1", "t3", "c0", "s1.c=k"]
 SMALL_CFG = ["2.1.2.2.2.r/1.2.1.0.0.r", "1.1.1.1.1.u/1.1.0.0.0.l/1.0.2.0.3.r"]
 
@@ -665,6 +682,9 @@ HAND = [
     # a backend that accepts and resets before a byte is sent, for as long as it is asked
     "gw 0 0 1 1.1.0.0.0.u/1.1.0.0.0.u a0.1.c=kkkkkkkkkk,w=eeeeeeeeee,r=xxxxxxxxxx",
     "gw 1 0 2 1.0.0.0.0.r a0.1.c=kkkkkkkkkkkk,w=nnnnnnnnnnnn e0.1.r=xxxxxxxxxxxx,c=kkkkkkkkkkkk,w=nnnnnnnnnnnn",
+    # response begun, then cut off: before / after the head went out; short of the announced length
+    "gw 0 0 4 1.1.0.0.0.r a0.1.c=k e0.1.r=d e0.1.r=x a1.1.c=k e1.1.r=D e1.1.r=x a2.1.c=k e2.1.r=l e2.1.r=f a3.1.c=k e3.1.r=Dl e3.1.r=f",
+    "gw 0 0 2 1.1.0.2.0.r a0.1.c=k e0.1.r=d t3 a1.1.c=k e1.1.r=D t3",
 ]
 # hosts written without a label, "((...),(...))": every host's statistics key is the same
 HAND_ANON = [
